@@ -397,6 +397,13 @@ func genC01Tiny(t *rapid.T, c *core.Ctx) (*gen.Case, *model.File) {
 		default:
 			n = &model.Node{Kind: model.KAny}
 		}
+		if n.Kind == model.KObject && len(n.Props) > 0 && rapid.Bool().Draw(t, label+"addlany") {
+			// untyped additionalProperties next to declared properties (the usual "true")
+			n.Additional = &model.Additional{Schema: &model.Node{Kind: model.KAny, AnyAsTrue: rapid.Bool().Draw(t, label+"addltrue")}}
+			if rapid.Bool().Draw(t, label+"addlreq") {
+				n.Required = []string{n.Props[0].Name}
+			}
+		}
 		if n.Kind != model.KEnum && n.Kind != model.KAny && n.Kind != model.KNull && rapid.IntRange(0, 3).Draw(t, label+"null") == 0 {
 			n.Nullable = true
 			n.NullFirst = rapid.Bool().Draw(t, label+"nf")
@@ -424,6 +431,9 @@ func genC01Tiny(t *rapid.T, c *core.Ctx) (*gen.Case, *model.File) {
 			f.Root.Required = append(f.Root.Required, name)
 		}
 		f.Root.Props = append(f.Root.Props, model.Prop{Name: name, Node: n})
+	}
+	if rapid.IntRange(0, 3).Draw(t, "rootaddlany") == 0 {
+		f.Root.Additional = &model.Additional{Schema: &model.Node{Kind: model.KAny, AnyAsTrue: rapid.Bool().Draw(t, "rootaddltrue")}}
 	}
 	cfg := baseConfig()
 	cfg.ExtraImports = rapid.Bool().Draw(t, "extraImports")
